@@ -288,8 +288,8 @@ func judgeEmission(what string, n uintptr, err *tcpip.Error, frames []netsim.Fra
 	}
 	udpLen := int(binary.BigEndian.Uint16(raw[hl+4:]))
 	if ipLen != wantIPLen || udpLen != 8+len(w.payload) || len(raw) != hl+8+len(w.payload) {
-		return evid.Failf("write:length-fields", "%s of %d bytes succeeded; the %s packet is %d bytes long, its IP length field says %d (want %d), its UDP length field says %d (want %d)",
-			what, len(w.payload), wantL3, len(raw), ipLen, wantIPLen, udpLen, 8+len(w.payload))
+		return evid.Failf("write:length-fields", "%s succeeded; the %s packet is %d bytes long, its IP length field says %d (want %d), its UDP length field says %d (want %d)",
+			what, wantL3, len(raw), ipLen, wantIPLen, udpLen, 8+len(w.payload))
 	}
 	for _, e := range p.Errs {
 		if strings.Contains(e, "checksum") {
